@@ -36,8 +36,8 @@ def run(tier, seed, replay=None):
     ck.mc(DIR, "Vrp", "NC_vrp_route.cfg", expect_violation="I1")
     ck.mc(DIR, "Vrp", "NC_vrp_sync.cfg", expect_violation="I1")
     if tier == "thorough":
-        ck.mc(DIR, "JobShop", "MC_js3.cfg", timeout=3000)
-        ck.mc(DIR, "Vrp", "MC_vrp4.cfg", timeout=3000)
+        ck.mc(DIR, "JobShop", "MC_js3.cfg", timeout=14400)
+        ck.mc(DIR, "Vrp", "MC_vrp4.cfg", timeout=14400)
     nj = 300 if tier == "quick" else 5000
     nv = 120 if tier == "quick" else 2000
     jc = [drv.gen_jobshop(rng) for _ in range(nj)]
